@@ -238,4 +238,8 @@ def read_num_token(i, s):
                 value *= 10**exponent
         except OverflowError:
             raise BadNumberError(i)
+    elif isinstance(value, float) and math.isinf(value):
+        # A decimal literal with more than 308 digits before the point:
+        # out of range, like 1.5e400 above.
+        raise BadNumberError(i)
     return Token(Tokens.NUM, m.start(), m.end(), value=value)
